@@ -2,7 +2,7 @@ CONSTANTS
  MaxLen = 2
  GridArgs = "small"
  Deep = FALSE
- GraphIdx = {1, 7}
+ GraphIdx = {1, 7, 8}
 SPECIFICATION Spec
 INVARIANT AlwaysUp
 INVARIANT EmitReq
